@@ -126,6 +126,15 @@ def project(v, spans=False, depth=0):
     return ['other', repr(v)[:80]]
 
 
+def strip_obs_spans(v):
+    """Remove the span element from the objects of an OBSERVED (projected with spans=True) value."""
+    if isinstance(v, list):
+        if len(v) == 4 and v[0] == 'o':
+            return ['o', v[1], [[f, strip_obs_spans(x)] for f, x in v[2]]]
+        return [strip_obs_spans(x) for x in v]
+    return v
+
+
 def strip_spans(v):
     """Remove span information from a spec-side value (4th element of objects)."""
     if isinstance(v, list) and v:
